@@ -90,10 +90,16 @@ def gen_cases(seed, chunk, n, tier):
                 # negative axes denote the same permutation
                 p = {"axes": [q - a.ndim if rng.random() < 0.5 else q for q in perm]}
             entry = rng.choice(["method", "function", "autoray"])
+            nophase = bool(p) and rng.random() < 0.12
+            if nophase:
+                p = dict(p, phase=False)  # plain relabelling: no Koszul sign, pending signs carried along
             steps = [{"out": ["c"], "op": "transpose", "in": ["a"], "params": p}]
             env = {"a": a}
             res, env2 = impl.run_prog(env, steps, entry=entry)
-            if "ok" in res[0]:
+            if "ok" in res[0] and nophase:
+                exp = np.transpose(oracle.dense(a), [q % a.ndim for q in p["axes"]])
+                orc = oracle.embed_compare(env2["c"], exp, [a.indices[q] for q in perm])
+            elif "ok" in res[0]:
                 exp, _ = oracle.gtranspose(oracle.dense(a), oracle.parity_vectors(a), perm)
                 c = env2["c"]
                 orc = oracle.embed_compare(c, exp, [a.indices[q] for q in perm])
